@@ -6,7 +6,7 @@ from translators import bary_tables
 
 ID = "C10"
 PROP_FILE = "props/C10.v"
-COQ_TARGETS = ["props/C10.vo", "theories/Bary/Corr.vo", "theories/Bary/DualCorr.vo"]
+COQ_TARGETS = ["props/C10.vo", "theories/Bary/Corr.vo", "theories/Bary/DualCorr.vo", "theories/Bary/BcCorr.vo"]
 TRUSTED = [
     "correspondence harness harness/c10_impl.py, c10_dual.py + theories/Bary/Corr.v, DualCorr.v (diff inside Coq on the exact "
     "rationals of the implementation's doubles; tolerances 1e-13 absolute on coordinates, 1e-12 relative on matrix entries)",
@@ -42,7 +42,7 @@ def _vec(v):
     return "(%s, %s, %s)" % (_q(v[0]), _q(v[1]), _q(v[2]))
 
 
-PARTS = (["geometry", "tables", "pointwise", "dual", "bc"], ["mass_scalar"], ["mass_vector"])
+PARTS = (["geometry", "tables", "pointwise", "dual", "bc"], ["bcmodel", "mass_scalar"], ["mass_vector"])
 
 
 def _start_harness(ctx, strength):
@@ -155,6 +155,64 @@ def correspond(ctx):
         for i in [int(x) for x in re.findall(r'\d+', blk)]:
             ctx.corr["disagreements"] += 1
             ctx.problem("correspondence", "model and implementation disagree on %s: %s" % (nm, desc(cases[i])))
+    _correspond_bc(ctx, futs[1].result())
+
+
+def _slots(l):
+    return _lst("(%d%%nat, %d%%nat)" % (a, b) for a, b in l)
+
+
+def _bc_case(c):
+    return ("{| bc_ve1 := %s; bc_ve2 := %s; bc_se1 := %s; bc_se2 := %s; bc_nc1 := %d%%nat; bc_nc2 := %d%%nat; bc_r1 := %d%%nat; "
+            "bc_r2 := %d%%nat; bc_cells := %s; bc_info := %s; bc_len := %s; bc_col := %s; bc_interior := %s |}" % (
+                _slots(c["ve1"]), _slots(c["ve2"]), _lst("%d%%nat" % x for x in c["se1"]), _lst("%d%%nat" % x for x in c["se2"]),
+                c["nc1"], c["nc2"], c["r1"], c["r2"], _lst("%d%%nat" % x for x in c["cells"]),
+                _lst("(%d%%nat, %d%%nat, %d%%nat, %d%%nat)" % tuple(i) for i in c["info"]),
+                _lst("(%d%%nat, %s)" % (e, _q(v)) for e, v in c["len"]),
+                _lst("(%d%%nat, %s)" % (d, _q(v)) for d, v in c["col"]),
+                _lst("(%d%%nat, %s)" % (e, _lst("%d%%nat" % s[2] for s in c["slots_of_edge"][str(e)])) for e in c["interior"])))
+
+
+def _correspond_bc(ctx, rb):
+    """BC coefficient model vs the recorded fans / columns of dof_transformation (second harness process)."""
+    if rb is None:
+        return
+    cases = rb.get("bc_cases", [])
+    if not cases:
+        ctx.problem("correspondence", "no BC coefficient case was recorded")
+        return
+    body = "\n".join([
+        "From Coq Require Import QArith List.", "From BV Require Import Bary.Corr Bary.BcModel Bary.BcCorr.",
+        "Import ListNotations.", "Open Scope Q_scope.",
+        "Definition cases : list bc_case := %s." % _lst(_bc_case(c) for c in cases),
+        "Eval vm_compute in (failing bc_column_ok cases).",
+        "Eval vm_compute in (failing bc_flux_ok cases).",
+        "Eval vm_compute in (failing bc_hyps_ok cases).", ""])
+    out = ctx.coq_eval("c10bccases", body, timeout=900)
+    ctx.corr["evaluations"] += len(cases)
+    ctx.corr["distinct_nontrivial"] += sum(1 for c in cases if c["col"])
+    h = ctx.corr["histogram"]
+    for c in cases:
+        k = "bc:%s:%s" % ("whole" if c["options"] == "whole" else "segment",
+                          "border" if (c["se1"] or c["se2"]) else "interior(valences %d,%d)" % (c["nc1"], c["nc2"]))
+        h[k] = h.get(k, 0) + 1
+    ctx.corr["samples"].append({"bc": {"grid": cases[0]["grid"], "options": cases[0]["options"], "dof": cases[0]["dof"],
+                                       "nc": [cases[0]["nc1"], cases[0]["nc2"]], "column_head": cases[0]["col"][:4]}})
+    ctx.corr["rule"] += ("; (d) one BC basis function = one case: its column of dof_transformation vs the Gallina model of the "
+                         "coefficient stage on the recorded vertex fans (1e-12 relative), exact zero net flux through every "
+                         "interior barycentric edge of the fans, and the hypotheses of the flux theorems")
+    if out is None:
+        return
+    blocks = re.findall(r'=\s*(\[[^\]]*\])\s*:\s*list nat', out.replace("\n", " "))
+    if len(blocks) != 3:
+        ctx.problem("correspondence", "could not parse BC model evaluation output", out[-2000:])
+        return
+    for nm, blk in zip(("BC column", "BC interior-edge flux", "hypotheses of the BC flux theorems"), blocks):
+        for i in [int(x) for x in re.findall(r'\d+', blk)]:
+            ctx.corr["disagreements"] += 1
+            c = cases[i]
+            ctx.problem("correspondence", "model and implementation disagree on %s: %s (%s) dof %d" % (
+                nm, c["grid"], c["options"], c["dof"]))
 
 
 def _collect(ctx, res):
